@@ -16,6 +16,7 @@
 import Model.Path
 import Proofs.Row
 import Proofs.PathRoundTrip
+import Proofs.RowTieText
 
 namespace Jl.C18
 open Jl Jl.Value Jl.Path
@@ -205,5 +206,19 @@ theorem find_single (row : List (Bytes × Val)) (path : Bytes)
     (hna : PathRoundTrip.NoArrayOn row (splitDots path)) :
     findValuesAtPath row path = (getValueAtPath row path).map fun v => [v] :=
   PathRoundTrip.find_single row path hna
+
+
+/-! ### The path functions of the model are the source's (Proofs/RowTieText) -/
+
+/-- As written today: a path is split on `.`, each segment is looked up with `GetValue`, descent
+    goes through `asRow` (a row, or a cell whose raw value is one); `GetAtPath` is the raw value
+    of `GetValueAtPath`. -/
+theorem path_model_is_the_source :
+    Gen.rowFacts.getValueAtPath = .splitDescend "." "GetValue" "asRow"
+    ∧ Gen.rowFacts.findValuesAtPath = .firstKeyThenRowOrArrayOfRows "." "GetValue" "asRow"
+    ∧ Gen.rowFacts.asRow = .rowOrRawRow
+    ∧ Gen.rowFacts.readers.lookup "GetValue" = some .mapValue
+    ∧ Gen.rowFacts.readers.lookup "GetAtPath" = some (.rawOf "GetValueAtPath") :=
+  RowTie.path_as_modelled
 
 end Jl.C18
